@@ -22,6 +22,8 @@ ALPHA = "abcdefghijklmnopqrstuvwxyzABCDEFGHIJKLMNOPQRSTUVWXYZ0123456789"
 
 # (size, seed) of mode-"nz" contents whose SHA-1 digest happens to be valid UTF-8 (found by search; verified by selfcheck())
 UTF8_SHA1 = [(7, 188267), (7, 325718), (100, 13065), (100, 114349), (5000, 64089), (5000, 89257), (16384, 68539), (16384, 330530)]
+# the same for SHA-256: a file of one block has its SHA-256 as BEP 52 pieces root (about 1 content in 10^8; found by search)
+UTF8_SHA256 = [(7, 104364468), (7, 212425079), (7, 270607990), (7, 294742300), (7, 376316008), (7, 385646276)]
 
 
 def selfcheck():
@@ -29,6 +31,8 @@ def selfcheck():
     from vf import sandbox
     for size, seed in UTF8_SHA1:
         hashlib.sha1(sandbox.content("nz", seed, size)).digest().decode("utf-8")
+    for size, seed in UTF8_SHA256:
+        hashlib.sha256(sandbox.content("nz", seed, size)).digest().decode("utf-8")
 
 
 def name_component(cli_safe=False):
@@ -127,7 +131,7 @@ def tree(draw, P, max_files=8, modes=None, single=None, min_files=1, cli_safe=Fa
         if "nz" in modes and draw(st.sampled_from([True] + [False] * 11)):
             # a tiny region no random search reaches: the single piece's SHA-1 is valid UTF-8 (a lenient decoder
             # may hand it back as text instead of bytes)
-            size, seed = draw(st.sampled_from(UTF8_SHA1))
+            size, seed = draw(st.sampled_from(UTF8_SHA1 + UTF8_SHA256))
             return {"name": name, "single": True, "files": [{"size": size, "mode": "nz", "seed": seed, "path": []}]}
         f = draw(file_entry(P, modes, big, nonempty=nonempty_total))
         f["path"] = []
@@ -168,6 +172,11 @@ def tree(draw, P, max_files=8, modes=None, single=None, min_files=1, cli_safe=Fa
         files.append(f)
     if nonempty_total and all(f["size"] == 0 for f in files):
         files[0]["size"] = 1 + draw(st.integers(0, 2 * P))
+    if "nz" in modes and draw(st.sampled_from([True] + [False] * 11)):
+        # one file whose BEP 52 pieces root (= SHA-256 of its single block) is valid UTF-8
+        k = draw(st.integers(0, len(files) - 1))
+        size, seed = draw(st.sampled_from(UTF8_SHA256))
+        files[k].update({"size": size, "seed": seed, "mode": "nz"})
     if len(files) >= 2 and draw(st.sampled_from([True] + [False] * 3)):
         # make one file start mid-piece and end exactly on a piece boundary of the v1 stream (full-path order)
         order = sorted(range(len(files)), key=lambda i: "/".join([name] + files[i]["path"]))
